@@ -221,7 +221,14 @@ impl Context<'_> {
                 let read = read_view(&rendered, &view_key(kind, key));
                 match slot {
                     Slot::Value(expected) => {
-                        if !matches_value(&read, expected) {
+                        // An indexed column spells "no value" as the empty
+                        // string and the view omits the member, so `{key: ""}`
+                        // — which the index answers with the elements that
+                        // have no key — has to mean the same thing here.
+                        let absent = read.is_null()
+                            && expected.as_str() == Some("")
+                            && column_of(kind, key).is_some();
+                        if !absent && !matches_value(&read, expected) {
                             continue 'candidates;
                         }
                     }
